@@ -344,7 +344,7 @@ func testValues(attr, ty string) (string, string) {
 }
 
 func runC09(res *Result, tier string, seed int64, replay string) {
-	res.Rule = "EXHAUSTIVE matrix: every body component in a legal context × every attribute of its table × source level {mj-class, tag default, mj-all} with a typed non-default value, and every ordered pair of competing levels (winner value V1, loser value V2 ≠ V1); css-class (always accepted) supplied by the tag default, by mj-all and by both, for every component; plus seeded whole documents with heads. Oracle: the document is rewritten by the Spec — the Lean `winner` (driver `res`) is written as the element's own attribute for every (element, attribute) any source defines, the mj-attributes block is dropped — and the rendered <body> must be byte-identical to the body of the original. Non-trivial (informative) = cell whose attribute changes the body at all when set on the element; distinct by (component, attribute, level)"
+	res.Rule = "EXHAUSTIVE matrix: every body component in a legal context × every attribute of its table × source level {mj-class, tag default, mj-all} with a typed non-default value, the same classes listed in both orders on two elements of one document, and every ordered pair of competing levels (winner value V1, loser value V2 ≠ V1); css-class (always accepted) supplied by the tag default, by mj-all and by both, for every component; plus seeded whole documents with heads. Oracle: the document is rewritten by the Spec — the Lean `winner` (driver `res`) is written as the element's own attribute for every (element, attribute) any source defines, the mj-attributes block is dropped — and the rendered <body> must be byte-identical to the body of the original. Non-trivial (informative) = cell whose attribute changes the body at all when set on the element; distinct by (component, attribute, level)"
 	drv, err := startDriverPool(4)
 	if err != nil {
 		res.Disagree(Violation{Sig: "driver-missing", What: err.Error()})
@@ -672,6 +672,45 @@ func runC09(res *Result, tier string, seed int64, replay string) {
 					at.Kids = append(at.Kids, mk("mj-class", "name", "m1", attr, v2), mk("mj-class", "name", "m2", attr, v1))
 					find(d).Set("mj-class", sep)
 				}), find, attr, v1, fmt.Sprintf("mj-class(list-spelling-%d)", si), informative)
+			}
+			// the same classes listed in the two orders on two elements of ONE document: each element's own last class decides
+			if tag != "mj-body" {
+				d2 := withHead(func(at, d *Node) {
+					at.Kids = append(at.Kids, mk("mj-class", "name", "m1", attr, v2), mk("mj-class", "name", "m2", attr, v1))
+					body := d.child("mj-body")
+					var twice []*Node
+					for _, k := range body.Kids {
+						twice = append(twice, k)
+					}
+					for _, k := range body.Kids {
+						twice = append(twice, k.Clone())
+					}
+					body.Kids = twice
+				})
+				nth := func(n int) func(d *Node) *Node {
+					return func(d *Node) *Node {
+						var hits []*Node
+						d.child("mj-body").Walk(func(x *Node) {
+							if x.Tag == tag {
+								hits = append(hits, x)
+							}
+						})
+						// the first instance of the first copy and the first instance of the second copy
+						if len(hits) < 2 {
+							return nil
+						}
+						if n == 0 {
+							return hits[0]
+						}
+						return hits[len(hits)/2]
+					}
+				}
+				if a, b := nth(0)(d2), nth(1)(d2); a != nil && b != nil && a != b {
+					a.Set("mj-class", "m1 m2")
+					b.Set("mj-class", "m2 m1")
+					noop(d2, nth(0), attr, v1, "mj-class(both-orders-in-one-document,first)", informative)
+					noop(d2, nth(1), attr, v2, "mj-class(both-orders-in-one-document,second)", informative)
+				}
 			}
 			// competing levels, winner not the element itself
 			noop(withHead(func(at, d *Node) {
